@@ -8,7 +8,9 @@ Decided from the parsed SQL program (effective routines after migration replay) 
   R3  INSERT..ON DUPLICATE KEY UPDATE into a counter table: same amount on the insert and the update side, no one-sided column
   R4  cancel_job_group / cancel_batch: what leaves n_*_jobs / *_cores_mcpu enters n_cancelled_*; only committed updates; guarded by
       NOT already-cancelled; group cancel removes the group's cancellable sums from itself and every ancestor
-  R5  _create_jobs: per-job tallies agree with the inserted state / always_run and are bound to the like-named columns; fan out over ancestors
+  R5  _create_jobs (engines/c05submit.py: helpers inlined, rows found through their INSERT statements, no local name compared): truth table of the job
+      loop over (first update?, parent lists empty?, always_run?, opaque atoms) - the tallies agree with the inserted state / always_run / cores on
+      every row; the counter inserts bind each column to the like-named tally of the iterated item; fan out over ancestors
   R6  closed world: only the listed routines / functions write the counter tables; cleanup deletes are keyed and filtered
   R7  commit_batch_update hands over exactly the root-group staging sums of that update, once
   R8  no UPDATE changes the job columns the trigger treats as immutable
@@ -23,6 +25,9 @@ Decided from the parsed SQL program (effective routines after migration replay) 
   R11 every call path to commit_batch_update refuses a batch whose root group is cancelled
   R12 every reader of the token-sharded counter tables reads SUM over all shards
 cores_mcpu is symbolic throughout: amount columns are compared through their linear normal form a + b * cores_mcpu (R1, R2).
+Robustness: SQL is compared by structure (engines/c01facts.py: alias map of the FROM clause, equality closure over WHERE / inner-join ON conditions, path
+conditions as literal sets with NOT / AND / OR / `= 0` / boolean locals / LEAVE guard clauses resolved, routine locals identified by what is read INTO them,
+parameters by position); a FAIL needs a recognised shape that breaks the obligation, an unrecognised shape is declined (exit 2).
 Not decided: InnoDB locking / token-shard concurrency (incl. the check-then-commit race of R11) and the inductive argument over whole histories.
 """
 from __future__ import annotations
@@ -607,6 +612,14 @@ def r4_cancel(ctx: Ctx, prog: sf.SqlProgram) -> None:
             elif st.kind == 'insert' and tbls[0] == 'job_groups_cancelled':
                 found_mark = True
         ctx.need(found_mark, f'{rname}: the INSERT INTO job_groups_cancelled that marks the cancellation was not found')
+        # order: the move into the cancelled counters READS the cancellable rows that the other statement zeroes / deletes
+        order = [(i_, st_) for i_, (st_, _g) in enumerate(sf.guarded_statements(a.body)) if sf.written_tables(st_)]
+        movers = [i_ for i_, st_ in order if st_.kind == 'insert' and st_.table.lower() == USER_TBL and st_.select is not None and CANC_TBL in cf.alias_map(st_.select).values()]
+        clearers = [i_ for i_, st_ in order if any(t.lower() == CANC_TBL for t, _ in sf.written_tables(st_))]
+        if movers and clearers:
+            ctx.check(max(movers) < min(clearers), 'R4', f'{r.file}::{rname}::moves before clearing',
+                      f'{rname} clears the cancellable rows in {CANC_TBL} BEFORE the statement that sums them up to move the counts from n_*_jobs to n_cancelled_*_jobs in {USER_TBL}: '
+                      'the sums are zero by then, nothing is moved and the cancelled jobs stay counted as ready / running', r.file, r.line_of(dict(order)[min(clearers)]))
         for found, table, key, msg in ((found_user, USER_TBL, 'moves live counts', f'{rname} marks the {"group" if group_level else "batch"} cancelled but never moves its cancellable '
                                         f'ready/running/creating counts out of {USER_TBL}: the scheduler keeps counting cancelled jobs as runnable'),
                                        (found_canc, CANC_TBL, 'clears cancellable', f'{rname} marks the {"group" if group_level else "batch"} cancelled but leaves its rows in {CANC_TBL} counted as cancellable')):
@@ -1171,9 +1184,9 @@ def _check_row_filter(ctx: Ctx, m: pf.Module, e: Any, rows: cs.Rows, V: str, cou
 # ------------------------------------------------------------------------------------------------
 ALLOWED_WRITERS = {
     USER_TBL: {'sql:jobs_after_update', 'sql:cancel_job_group', 'sql:cancel_batch', 'sql:commit_batch_update'},
-    CANC_TBL: {'sql:jobs_after_update', 'sql:cancel_job_group', 'sql:cancel_batch', 'py:batch/batch/front_end/front_end.py::_create_jobs.insert_jobs_into_db',
+    CANC_TBL: {'sql:jobs_after_update', 'sql:cancel_job_group', 'sql:cancel_batch', 'py:batch/batch/front_end/front_end.py::_create_jobs',
                'py:batch/batch/driver/main.py::delete_prev_cancelled_job_group_cancellable_resources_records'},
-    STAGE_TBL: {'py:batch/batch/front_end/front_end.py::_create_jobs.insert_jobs_into_db', 'py:batch/batch/driver/main.py::delete_committed_job_groups_inst_coll_staging_records'},
+    STAGE_TBL: {'py:batch/batch/front_end/front_end.py::_create_jobs', 'py:batch/batch/driver/main.py::delete_committed_job_groups_inst_coll_staging_records'},
 }
 WRITE_RE = re.compile(r'\b(INSERT|UPDATE|DELETE|REPLACE|TRUNCATE)\b', re.I)
 
@@ -1185,7 +1198,7 @@ def _entry_points(m: pf.Module, fn: Optional[pf.FuncDef], depth: int = 0, seen: 
         return ['<module>']
     seen = seen if seen is not None else set()
     if id(fn) in seen or depth > 4:
-        return [m.qualname(fn)]
+        return [m.qualname(cs.outermost_function(m, fn) or fn)]
     seen.add(id(fn))
     callers = []
     other_ref = False
@@ -1205,7 +1218,7 @@ def _entry_points(m: pf.Module, fn: Optional[pf.FuncDef], depth: int = 0, seen: 
                 other_ref = True
     out: List[str] = []
     if other_ref or not callers:
-        out.append(m.qualname(fn))
+        out.append(m.qualname(cs.outermost_function(m, fn) or fn))
     for g in callers:
         for q in _entry_points(m, g, depth + 1, seen):
             if q not in out:
@@ -1243,7 +1256,9 @@ def writers_scan(ctx: Ctx, prog: sf.SqlProgram, dirs: List[str], tables: Dict[st
                     if t.lower() in tables:
                         # a write inside a helper function is attributed to the functions that (transitively) call the helper: extracting the
                         # statement into a helper does not create a new writer, a NEW caller of such a helper does
-                        for q in ([e.qual] if f'py:{rel}::{e.qual}' in tables[t.lower()] else _entry_points(m, e.fn)):
+                        # writers are named by their outermost (module-level / method) function: the name of a nested transaction body is private
+                        top_q = m.qualname(cs.outermost_function(m, e.call) or e.fn) if e.fn is not None else '<module>'
+                        for q in ([top_q] if f'py:{rel}::{top_q}' in tables[t.lower()] else _entry_points(m, e.fn)):
                             wid = f'py:{rel}::{q}'
                             found[t.lower()].add(wid)
                             where[(t.lower(), wid)] = (m.path, e.lineno)
@@ -2127,7 +2142,7 @@ def run(ctx: Ctx) -> None:
     ctx.rule('R1', 'jobs_after_update delta of every counter column == spec(NEW) - spec(OLD) on all (old state, new state, cancelled, always_run, group-cancelled) points; keyed by owner / inst_coll', 16)
     ctx.rule('R2', 'check_incremental recomputes the same spec per column and compares like-named actual/expected pairs', 25)
     ctx.rule('R3', 'INSERT .. ON DUPLICATE KEY UPDATE applies the same amount on both sides, no one-sided column', 47)
-    ctx.rule('R4', 'cancel procedures: -SUM(cancellable) from live counters == +SUM into cancelled counters; committed updates only; guarded by NOT cancelled; ancestors adjusted', 43)
+    ctx.rule('R4', 'cancel procedures: -SUM(cancellable) from live counters == +SUM into cancelled counters (summed before the cancellable rows are cleared); committed updates only; guarded by NOT cancelled; ancestors adjusted', 45)
     ctx.rule('R5', 'per-group counter rows fan out over the job group and all ancestors; _create_jobs tallies match the inserted job row and are bound to like-named columns', 18)
     ctx.rule('R6', 'closed world of writers of the counter tables; cleanup deletes keyed by the selected triple and filtered (committed / cancelled)', 18)
     ctx.rule('R7', 'commit_batch_update adds exactly the root-group staging sums of (batch, update), once, in the not-yet-committed branch', 7)
